@@ -1065,3 +1065,5 @@ V("d-c19-slots-sources", "C19", "fire", SE, "            if parents != set():\n"
 V("d-c18-bin-add", "C18", "fire", UT, "    supergraph = A.copy()\n    i = 0\n", "    supergraph = np.abs(A - 1).copy()\n    i = 0\n", rule="BIN.add", what="the working graph is not a copy of the pattern", accept_inconclusive=True)
 V("d-c08-index-init-zero", "C08", "fire", UT, "    G = only_directed(P)\n    indexes = list(range(len(P)))", "    G = np.zeros_like(P)\n    indexes = list(range(len(P)))", rule="INDEX.init", what="the extension starts from the empty graph: directed edges are lost")
 V("c08-silent-index-init-copy", "C08", "silent", UT, "    G = only_directed(P)\n    indexes = list(range(len(P)))", "    G = only_directed(P).copy()\n    indexes = list(range(len(P)))", what="explicit copy of the directed part")
+V("c13-noise-private-generator", "C13", "fire", NO, "import numpy as np\n", "import numpy as np\n_rng = np.random.default_rng()\n", rule="R6.library-noise",
+  more=[(NO, "return lambda n: np.random.laplace(mean, scale, n)", "return lambda n: _rng.laplace(mean, scale, n)")], what="library noise drawn from a private generator that ANM.sample never seeds")
